@@ -47,7 +47,7 @@ theorem codesLoop_total (cfg : Cfg) (h : cfg.intRaises = false) (l : List (List 
       · simp [h, hcs]
     · exact ⟨cs, hcs⟩
 
-theorem sgrLookup_parse_ok (v : Variant) {code : Nat} {d : List Char} (h : sgrLookup code = some d) :
+theorem sgrLookup_parse_ok (v : StyleVariant) {code : Nat} {d : List Char} (h : sgrLookup code = some d) :
     ∃ s, Style.parse v d = .ok s := by
   have ht := tablesOk_all v
   simp only [tablesOk, entriesOk, Bool.and_eq_true, List.all_eq_true] at ht
